@@ -46,7 +46,9 @@ META = {
         "rejected because 0 is a legal value), looping over all docutils.nodes.raw of the whole document (traverse/findall, no descend=False; either one loop over the "
         "document or a sweep `for root in (document, *document.footnotes, ...)` whose roots include the document; when the nodes of "
         "several - overlapping - roots are gathered into one list before any is processed, the loop must skip detached nodes or "
-        "de-duplicate, else a raw node in an attached footnote is visited twice and the clean-up aborts), and on every "
+        "de-duplicate, else a raw node in an attached footnote is visited twice and the clean-up aborts; a sweep that skips the roots "
+        "having a parent (`if root.parent is not None: continue`) is a violation - a footnote discarded with the container it was parsed "
+        "into keeps that container as parent and is re-attached later; any other jump out of a sweep iteration is an ANALYSIS-ERROR), and on every "
         "iteration replacing or removing the node - a skip is accepted only for detached nodes or a tautological type test, any other "
         "skip (by the node's content, a local derived from it, or configuration) is a violation; nodes are not removed while the lazy "
         "findall() generator walks the tree; the replacement can never be None (Element.replace(old, None) is a no-op: nullable "
@@ -78,7 +80,11 @@ META = {
         "run_directive or from the run() of any registered / instantiated directive stand-in (search stopped where markdown text "
         "re-enters the renderer) is behind its own test or only called from guarded sites. "
         "R4: every call of the nested rST parser runs on a document whose settings are the outer document's object, a copy of it, a "
-        "complete fill or at least both switches copied (a setdefault merge or fresh defaults are violations); MockRSTParser passes its "
+        "complete fill or at least both switches copied (a setdefault merge or fresh defaults are violations); when the outer settings are "
+        "handed to a package helper that makes the nested document (make_document(..., settings=...)), that parameter must decide the "
+        "settings of every document the helper returns: the parameter itself, a copy, or a merge in which it is the last - winning - "
+        "operand ({**defaults, **given}, defaults | given, dict(defaults, **given)); a merge the new parser defaults win, or a "
+        "parameter that is ignored, is a violation, any other shape an ANALYSIS-ERROR; MockRSTParser passes its "
         "document on; every mock handed to directives/roles exposes the renderer's real document and wraps the running renderer. "
         "R5: no store, setattr, override-dict entry or keyword argument in the package gives either switch a value other than False "
         "(copying the same switch from another settings object is allowed). "
@@ -833,10 +839,39 @@ class Filter:
                 if isinstance(it_, (ast.Tuple, ast.List)) and it_.elts and not a.orelse:
                     self._roots_expr = it_
                     # the inner loop must run in every iteration of the outer one
-                    if a.body and (a.body[0] is lp or lp in a.body) and not any(isinstance(n, (ast.Break, ast.Continue, ast.Return)) and not any(x is lp for x in _ancestors_local(n)) for n in walk_local(a)):
+                    jumps = [n for n in walk_local(a) if isinstance(n, (ast.Break, ast.Continue, ast.Return)) and not any(x is lp for x in _ancestors_local(n))]
+                    if a.body and (a.body[0] is lp or lp in a.body) and not jumps:
+                        return a
+                    if lp in a.body and jumps and self._attached_root_skips(a, lp, recv.id, jumps):
                         return a
                 return None
         return None
+
+    def _attached_root_skips(self, a: ast.For, lp: ast.For, root_var: str, jumps: list) -> bool:
+        """Every jump out of an iteration of the root sweep is `if <root has a parent>: continue` ahead of the raw loop.
+        Having a parent is not being part of the document: a footnote that a directive parsed into a temporary container
+        and discarded together with it keeps that container as parent, stays registered and is re-attached later."""
+        ifs = []
+        for j in jumps:
+            pi = parent(j)
+            if not (isinstance(j, ast.Continue) and isinstance(pi, ast.If) and pi in a.body and not pi.orelse and pi.body == [j] and a.body.index(pi) < a.body.index(lp)):
+                return False
+            fs = facts(pi.test, True)
+            if len(fs) != 1 or not _only_parent_test(pi.test, root_var):
+                return False
+            t_, pol = fs[0]
+            if isinstance(t_, ast.Compare) and len(t_.ops) == 1 and is_const(t_.comparators[0], None) and isinstance(t_.left, ast.Attribute):
+                attached = pol if isinstance(t_.ops[0], (ast.IsNot, ast.NotEq)) else (not pol) if isinstance(t_.ops[0], (ast.Is, ast.Eq)) else None
+            elif isinstance(t_, ast.Attribute):
+                attached = pol
+            else:
+                attached = None
+            if attached is not True:
+                return False
+            ifs.append(pi)
+        if not any(asp == "registry-roots-skipped" for asp, _, _ in self.problems):
+            self.problems.append(("registry-roots-skipped", f"the sweep skips every root for which `{short(ifs[0].test, 50)}`: a registered footnote that a directive discarded together with the container it was parsed into still has that container as parent, is never scanned, and is re-attached - raw nodes included - when footnotes are collected", ifs[0]))
+        return True
 
     def _raw_iter(self, lp: ast.For):
         """(receiver, traversal call, lazy) when the loop iterates over all nodes.raw of a receiver.
@@ -2099,6 +2134,12 @@ def _judge_nested_document(corpus: Corpus, rep: Report, rr: FunctionInfo, pc: as
         return
     created = _deref(darg, rr)
     via_ctor = isinstance(created, ast.Call) and any(_settings_kind(a, rr) == "outer" for a in list(created.args) + [kw.value for kw in created.keywords])
+    if via_ctor:
+        # a package helper that is handed the outer settings must make them the settings of the document it returns
+        bad = _helper_drops_settings(corpus, rr, created)
+        if bad is not None:
+            rep.violation("C20.R4", k, bad[1], bad[0])
+            return
     kinds = [(st_, _settings_kind(st_.value, rr)) for st_ in stores]
     good = [st_ for st_, kd in kinds if kd == "outer"]
     fresh = [st_ for st_, kd in kinds if kd == "fresh"]
@@ -2126,6 +2167,164 @@ def _judge_nested_document(corpus: Corpus, rep: Report, rr: FunctionInfo, pc: as
             rep.ok("C20.R4", k, rr.module.site(verdict[2]), verdict[1])
         else:
             rep.violation("C20.R4", k, rr.module.site(verdict[2]), verdict[1])
+
+
+def _given_fact(test: ast.expr, pol: bool, p: str) -> bool | None:
+    """True: the fact says parameter ``p`` was given (not None / truthy); False: it says it was not; None: unrelated."""
+    if isinstance(test, ast.Name) and test.id == p:
+        return pol
+    if isinstance(test, ast.Compare) and len(test.ops) == 1 and isinstance(test.left, ast.Name) and test.left.id == p and is_const(test.comparators[0], None):
+        if isinstance(test.ops[0], (ast.IsNot, ast.NotEq)):
+            return pol
+        if isinstance(test.ops[0], (ast.Is, ast.Eq)):
+            return not pol
+    return None
+
+
+def _is_merge(e: ast.expr) -> bool:
+    return (isinstance(e, ast.Dict) and bool(e.keys) and any(k_ is None for k_ in e.keys)) or (isinstance(e, ast.BinOp) and isinstance(e.op, ast.BitOr))
+
+
+def _settings_winner(e: ast.expr | None, t: FunctionInfo, p: str, at, depth: int = 0) -> str:
+    """In helper ``t`` called with the outer settings as parameter ``p``: whose raw_enabled / file_insertion_enabled
+    does the settings expression ``e`` (evaluated at CFG statement ``at``) carry - 'param' or 'fresh' (newly created
+    defaults)?  Both objects define both switches, so in a merge the LAST operand decides.  Unknown shape: Unsupported."""
+    site = t.module.site(e if e is not None else t.node)
+    if e is None or depth > 6:
+        raise Unsupported(f"{site}: cannot tell which settings the helper {t.qualname}() gives to the document it returns")
+    cfg = get_cfg(t)
+    if isinstance(e, ast.Name):
+        stores = [n for n in t.local_nodes() if isinstance(n, ast.Name) and n.id == e.id and isinstance(n.ctx, ast.Store)]
+        defs = [n for n in t.local_nodes() if isinstance(n, ast.Assign) and len(n.targets) == 1 and isinstance(n.targets[0], ast.Name) and n.targets[0].id == e.id]
+        if len(stores) != len(defs):
+            raise Unsupported(f"{site}: `{e.id}` is bound by something other than a plain assignment in {t.qualname}()")
+        live = []
+        for d in defs:
+            if d is at or at not in cfg.reachable_from(d):
+                continue
+            gv = [_given_fact(ft, fp, p) for ft, fp in cfg.guards(d)]
+            if False in gv:
+                continue  # only runs when the parameter was not given
+            live.append((d, True in gv))
+        if not live:
+            if e.id == p:
+                return "param"
+            raise Unsupported(f"{site}: no definition of `{e.id}` reaches this use in {t.qualname}()")
+        if e.id == p and any(not gd for _, gd in live):
+            raise Unsupported(f"{site}: parameter `{p}` is rebound in {t.qualname}()")
+        given = [d for d, gd in live if gd]
+        plain = [d for d, gd in live if not gd]
+        if len(given) == 1 and all(given[0] in cfg.reachable_from(d) and d not in cfg.reachable_from(given[0]) for d in plain):
+            return _settings_winner(given[0].value, t, p, given[0], depth + 1)
+        if not given and len(plain) == 1:
+            return _settings_winner(plain[0].value, t, p, plain[0], depth + 1)
+        raise Unsupported(f"{site}: several definitions of `{e.id}` reach this use in {t.qualname}()")
+    if isinstance(e, ast.Attribute) and e.attr == "__dict__":
+        return _settings_winner(e.value, t, p, at, depth + 1)
+    if isinstance(e, ast.IfExp):
+        fs = facts(e.test, True)
+        gv = _given_fact(fs[0][0], fs[0][1], p) if len(fs) == 1 else None
+        if gv is True:
+            return _settings_winner(e.body, t, p, at, depth + 1)
+        if gv is False:
+            return _settings_winner(e.orelse, t, p, at, depth + 1)
+        raise Unsupported(f"{site}: conditional settings `{short(e, 50)}` not decided by parameter `{p}`")
+    if isinstance(e, ast.BoolOp) and isinstance(e.op, ast.Or) and isinstance(e.values[0], ast.Name) and e.values[0].id == p:
+        return _settings_winner(e.values[0], t, p, at, depth + 1)
+    if isinstance(e, ast.Dict) and e.keys and all(k_ is None for k_ in e.keys):
+        return _settings_winner(e.values[-1], t, p, at, depth + 1)
+    if isinstance(e, ast.BinOp) and isinstance(e.op, ast.BitOr):
+        return _settings_winner(e.right, t, p, at, depth + 1)
+    if isinstance(e, ast.Call):
+        d = dotted(e.func) or ""
+        last = d.rsplit(".", 1)[-1]
+        one = e.args[0] if len(e.args) == 1 and not e.keywords and not isinstance(e.args[0], ast.Starred) else None
+        if last in ("copy", "deepcopy"):
+            src = e.args[0] if e.args else (e.func.value if isinstance(e.func, ast.Attribute) else None)
+            return _settings_winner(src, t, p, at, depth + 1)
+        if d == "vars" and one is not None:
+            return _settings_winner(one, t, p, at, depth + 1)
+        if d == "dict" and e.args and not isinstance(e.args[0], ast.Starred) and len(e.args) == 1:
+            kws = [kw for kw in e.keywords]
+            if not kws:
+                return _settings_winner(e.args[0], t, p, at, depth + 1)
+            if all(kw.arg is None for kw in kws):
+                return _settings_winner(kws[-1].value, t, p, at, depth + 1)
+        wraps = d in ("Values", "optparse.Values", "frontend.Values", "docutils.frontend.Values") or (
+            isinstance(e.func, ast.Call) and dotted(e.func.func) == "type" and len(e.func.args) == 1
+        )
+        if wraps and one is not None:
+            # a settings object rebuilt from a mapping: Values(mapping) / type(settings)(mapping)
+            return _settings_winner(one, t, p, at, depth + 1)
+        if last in FRESH_SETTINGS and not any(isinstance(n, ast.Name) and n.id == p for n in ast.walk(e)):
+            return "fresh"
+    raise Unsupported(f"{site}: cannot tell whether `{short(e, 60)}` carries the settings given to {t.qualname}() or new defaults")
+
+
+def _helper_drops_settings(corpus: Corpus, rr: FunctionInfo, created: ast.Call) -> tuple[str, str] | None:
+    """``created`` (in ``rr``) makes the nested document and is handed the outer settings.  A library constructor
+    (docutils' new_document / nodes.document) takes the object as it is.  A package helper must make that argument
+    win in the settings of every document it returns: None when it does, (message, site) when new defaults win."""
+    g = get_callgraph(corpus)
+    targets = [t for t in g.flat_targets(g.resolve_call(created, rr)) if not t.is_lambda]
+    for t in targets:
+        off = 1 if t.cls is not None and t.params and t.params[0] in ("self", "cls") else 0
+        names = []
+        for i, a in enumerate(created.args):
+            if isinstance(a, ast.Starred):
+                raise Unsupported(f"{rr.module.site(created)}: starred arguments to {t.qualname}()")
+            if _settings_kind(a, rr) == "outer":
+                if i + off >= len(t.params) or t.node.args.vararg is not None and i + off >= len(t.node.args.posonlyargs) + len(t.node.args.args):
+                    raise Unsupported(f"{rr.module.site(created)}: cannot match the settings argument to a parameter of {t.qualname}()")
+                names.append(t.params[i + off])
+        for kw in created.keywords:
+            if _settings_kind(kw.value, rr) == "outer":
+                if kw.arg is None or kw.arg not in t.params:
+                    raise Unsupported(f"{rr.module.site(created)}: cannot match the settings argument to a parameter of {t.qualname}()")
+                names.append(kw.arg)
+        if len(names) != 1:
+            raise Unsupported(f"{rr.module.site(created)}: the outer settings are passed {len(names)} times to {t.qualname}()")
+        p = names[0]
+        cfg = get_cfg(t)
+        rets = [n for n in t.local_nodes() if isinstance(n, ast.Return)]
+        if not rets or t.is_generator():
+            raise Unsupported(f"{t.site()}: {t.qualname}() does not return the document it makes")
+        for r in rets:
+            v = r.value
+            sexpr = None
+            at = r
+            if isinstance(v, ast.Name):
+                sstores = [n for n in t.local_nodes() if isinstance(n, ast.Assign) and any(unparse(x) == f"{v.id}.settings" for x in n.targets)]
+                if len(sstores) == 1 and cfg.dominates(sstores[0], r):
+                    sexpr, at = sstores[0].value, sstores[0]
+                elif sstores:
+                    raise Unsupported(f"{t.module.site(sstores[0])}: `{v.id}.settings` is not assigned exactly once before the return of {t.qualname}()")
+                else:
+                    ddefs = [n for n in t.local_nodes() if isinstance(n, ast.Assign) and any(isinstance(x, ast.Name) and x.id == v.id for x in n.targets)]
+                    if len(ddefs) != 1 or not cfg.dominates(ddefs[0], r):
+                        raise Unsupported(f"{t.module.site(r)}: cannot find where the returned document `{v.id}` is made")
+                    v, at = ddefs[0].value, ddefs[0]
+            if sexpr is None:
+                if not isinstance(v, ast.Call):
+                    raise Unsupported(f"{t.module.site(r)}: {t.qualname}() returns `{short(v, 40) if v is not None else 'None'}`, not a newly made document")
+                full = t.module.resolve(dotted(v.func) or "") or ""
+                last = (dotted(v.func) or "").rsplit(".", 1)[-1]
+                if last == "new_document" and not g.flat_targets(g.resolve_call(v, t)):
+                    sexpr = arg_or_kw(v, 1, "settings")
+                elif full == "docutils.nodes.document":
+                    sexpr = arg_or_kw(v, 0, "settings")
+                else:
+                    raise Unsupported(f"{t.module.site(v)}: the document returned by {t.qualname}() is made by `{short(v.func, 40)}`, which the rule does not follow")
+                if sexpr is None:
+                    return (f"{t.qualname}() is handed the outer document's settings as `{p}` but makes the document without a settings argument (docutils then creates defaults: raw and file insertion enabled)", t.module.site(v))
+            if _settings_winner(sexpr, t, p, at) == "fresh":
+                return (
+                    f"{t.qualname}() is handed the outer document's settings as `{p}`, but in `{short(sexpr, 40)}` newly created parser defaults decide "
+                    "raw_enabled / file_insertion_enabled (the parameter is ignored, or the defaults are the last - winning - operand of the merge): "
+                    "rST directives inside eval-rst read files although file insertion is disabled",
+                    t.module.site(sexpr),
+                )
+    return None
 
 
 @rule("C20.R4")
@@ -2751,6 +2950,12 @@ def mutants(corpus: Corpus):
                 f"{io}for {unparse(l_.target)} in raw_nodes:\n" + body_src
             )
             out.append(Mutant("c20-filter-roots-gathered-up-front", "C20.R1", dm.rel, splice(dm.src, o_, flat_src), expect="overlapping-roots"))
+            # 3h. roots that have a parent are skipped as "already covered by the document" (a discarded container is a parent too)
+            if l_ in o_.body:
+                out.append(Mutant("c20-filter-roots-with-parent-skipped", "C20.R1", dm.rel, splice(dm.src, l_, f"if {o_.target.id}.parent is not None:\n{il}    continue\n{il}" + segment(dm.src, l_)), expect="registry-roots-skipped"))
+                out.append(Mutant("c20-filter-roots-with-truthy-parent-skipped", "C20.R1", dm.rel, splice(dm.src, l_, f"if not ({o_.target.id}.parent is None):\n{il}    continue\n{il}" + segment(dm.src, l_)), expect="registry-roots-skipped"))
+            else:
+                out.append(("c20-filter-roots-with-parent-skipped", "the raw loop is not a direct statement of the root sweep"))
         # 4. extra condition
         out.append(Mutant("c20-filter-extra-condition", "C20.R1", dm.rel, splice(dm.src, flt.test, segment(dm.src, flt.test) + " and not config.gfm_only"), expect="raw filter|test"))
         loop = find_node(parse, lambda n: isinstance(n, ast.For) and "nodes.raw" in unparse(n.iter))
@@ -2994,6 +3199,31 @@ def mutants(corpus: Corpus):
             src = splice(base.src, pst, segment(base.src, pst) + "\n" + indent_of(rr, pst) + segment(base.src, st))
             src = splice(src, st, "pass")
             out.append(Mutant("c20-evalrst-settings-shared-too-late", "C20.R4", base.rel, src, expect="render_restructuredtext"))
+        # the settings travel through a parameter of the document helper instead, which lets the parser defaults win
+        mk_call = find_node(rr, lambda n: isinstance(n, ast.Call) and not n.args and not n.keywords and isinstance(n.func, ast.Name) and n.func.id in base.functions)
+        helper = base.functions.get(mk_call.func.id) if mk_call is not None else None
+        ret = find_stmt(helper, lambda s: isinstance(s, ast.Return) and isinstance(s.value, ast.Call) and kwarg(s.value, "settings") is not None) if helper is not None else None
+        hargs = helper.node.args if helper is not None else None
+        if ret is not None and hargs.args and not hargs.kwonlyargs and hargs.vararg is None and hargs.kwarg is None:
+            last_param = hargs.defaults[-1] if hargs.defaults else hargs.args[-1]
+            sv = kwarg(ret.value, "settings")
+            sseg = segment(base.src, sv)
+
+            def multi(edits):
+                src_ = base.src
+                for node_, text_ in sorted(edits, key=lambda x: (x[0].lineno, x[0].col_offset), reverse=True):
+                    src_ = splice(src_, node_, text_)
+                return src_
+
+            common_edits = [
+                (st, "pass"),
+                (mk_call, f"{mk_call.func.id}(outer_settings=self.document.settings)"),
+                (last_param, segment(base.src, last_param) + ", outer_settings=None"),
+            ]
+            out.append(Mutant("c20-evalrst-settings-through-helper-defaults-win-merge", "C20.R4", base.rel, multi(common_edits + [(sv, f"({sseg} if outer_settings is None else type(outer_settings)({{**vars(outer_settings), **vars({sseg})}}))")]), expect="render_restructuredtext"))
+            out.append(Mutant("c20-evalrst-settings-through-helper-ignored", "C20.R4", base.rel, multi(common_edits), expect="render_restructuredtext"))
+        else:
+            out.append(("c20-evalrst-settings-through-helper-*", "render_restructuredtext does not make its document with a no-argument call of a helper in base.py that returns `<ctor>(..., settings=...)`"))
     else:
         out.append(("c20-evalrst-settings-*", "no `<doc>.settings = ...` in render_restructuredtext"))
     for cname in ("MockState", "MockInliner"):
